@@ -7,7 +7,7 @@ the property statement over the abstract tree of contracts/etree_model.py.
 import z3
 
 from pyvc.contracts import FnContract, LoopSpec, Raises
-from pyvc.values import NONE, VBool, VExt, VInt, VNoneT, VRef, VSeq, VStr, VUnk, ext_sort, fresh_name
+from pyvc.values import NONE, VBool, VExt, VInt, VNoneT, VRef, VSeq, VStr, VTuple, VUnk, ext_sort, fresh_name
 from pyvc.verify import Maker, p_bool, p_int, p_obj, p_opt, p_str
 
 from contracts import c02_exec as X
@@ -1132,7 +1132,84 @@ def fragment_obligations(repo, tier):
         for ob in ex.obls.values():
             obls.append(dict(verify.discharge(ob, None, {}), function=f"{ODP}::_extract_slide"))
     fns.append(dict(mod.fn_info("_extract_slide"), obligations=len(obls)))
+    r2 = pptx_fragment(repo, reg, uni)
+    obls += r2["obligations"]
+    fns += r2["functions"]
+    undecided += r2["undecided"]
     return {"obligations": obls, "functions": fns, "undecided": undecided}
+
+
+# pptx_extractor._process_slide_from_context, placeholder classification of a shape's text.  Statement: the text of every
+# shape appears exactly once in the slide text (ordered_content, from which base_text is joined), except the documented
+# exclusions: footer, date and header placeholders (and the slide-image placeholder of notes pages).
+PPTX = "sharepoint2text/parsing/extractors/ms_modern/pptx_extractor.py"
+PPTX_EXCLUDED_PH = ["ftr", "dt", "hdr", "sldImg"]
+
+
+def pptx_fragment(repo, reg, uni):
+    import ast
+    from pyvc import loader, verify
+    from pyvc.state import Frame, State, HeapObj
+    from pyvc.flow import ground_obligation
+    pre = "C02/pptx_extractor.py::_process_slide_from_context/block#"
+    mod = loader.module(PPTX, repo)
+    fnode = mod.functions.get("_process_slide_from_context")
+    if fnode is None:
+        return {"obligations": [], "functions": [], "undecided": [{"obligation": f"{PPTX}::_process_slide_from_context", "why": "contract-target-missing"}]}
+    cands = [n for n in ast.walk(fnode) if isinstance(n, ast.If) and ast.unparse(n.test) == "ph is not None"
+             and any(isinstance(x, ast.Name) and x.id == "TITLE_TYPES" for x in ast.walk(n))]
+    if len(cands) != 1:
+        return {"obligations": [ground_obligation(pre + "classification-recognised", False, f"{len(cands)} candidate statement(s)", "pptx_extractor.py", definite=False)],
+                "functions": [], "undecided": []}
+    stmt = cands[0]
+    obls, undecided = [], []
+    ex = EXECUTOR(mod, reg, uni)
+    ex.oid_prefix = "C02/pptx_extractor.py::_process_slide_from_context"
+    for alt in ("placeholder", "no-placeholder"):
+        st = State()
+        text = z3.String("text")
+        st.assume(z3.Length(text) > 0)
+        ph = z3.Const("ph", ELEM)
+        lists = {}
+        for f in ("content_placeholders", "other_textboxes"):
+            n, cat, lead = z3.Int(f"{f}.len"), z3.String(f"{f}.cat"), z3.String(f"{f}.lead")
+            st.assume(X.slist_wf(n, cat, lead))
+            lists[f] = (X.mk_slist(ex, st, n, cat, lead, fresh=False), n, cat)
+        oc = VRef(st.alloc(HeapObj("list", [], None, False), ex.refs))
+        env = {"ph": VExt("Elem", ph) if alt == "placeholder" else NONE, "text": VStr(text), "position": VUnk("position"),
+               "slide_title": VStr(z3.String("slide_title")), "slide_footer": VStr(z3.String("slide_footer")),
+               "content_placeholders": lists["content_placeholders"][0], "other_textboxes": lists["other_textboxes"][0], "ordered_content": oc}
+        st.frames = [Frame(env, None, fnode)]
+        ex.cur_fn_stack.append(fnode)
+        ex.sinks.append([])
+        try:
+            outs = ex.exec_stmt(stmt, st)
+        except X.Unsupported as e:
+            undecided.append({"obligation": pre + "shape-text", "why": "OUT-OF-SUBSET " + str(e)})
+            continue
+        finally:
+            ex.sinks.pop()
+            ex.cur_fn_stack.pop()
+        ptype = z3.If(ATTR_HAS(ph, lit("type")), ATTR(ph, lit("type")), lit(""))
+        excluded = z3.BoolVal(False) if alt == "no-placeholder" else z3.Or([ptype == lit(k) for k in PPTX_EXCLUDED_PH])
+        for o in outs:
+            if o.kind != "fall":
+                continue
+            items = o.st.obj(oc.ref).data
+            if items is None or len(items) > 1:
+                g_once, g_excl = z3.BoolVal(False), z3.BoolVal(False)
+            elif len(items) == 1:
+                it = items[0]
+                ok = isinstance(it, VTuple) and len(it.items) == 3 and isinstance(it.items[2], VStr)
+                g_once = (it.items[2].t == text) if ok else z3.BoolVal(False)
+                g_excl = z3.Not(excluded)
+            else:
+                g_once, g_excl = excluded, z3.BoolVal(True)
+            ex.add_vc("block", "shape-text.visible-shape-text-enters-the-slide-text-exactly-once", o.st.pc, g_once, loc=f"{PPTX}:{stmt.lineno}")
+            ex.add_vc("block", "shape-text.footer-date-header-placeholders-stay-out", o.st.pc, g_excl, loc=f"{PPTX}:{stmt.lineno}")
+    for ob in ex.obls.values():
+        obls.append(dict(verify.discharge(ob, None, {}), function=f"{PPTX}::_process_slide_from_context"))
+    return {"obligations": obls, "functions": [dict(mod.fn_info("_process_slide_from_context"), obligations=len(obls))], "undecided": undecided}
 
 
 EXTRA = [bounded_native, fragment_obligations]
